@@ -28,21 +28,31 @@ claimed["C12"] = ("other", "Bounded symbolic execution of the real ParseSource (
 claimed["C11"] = ("other", "Lexical level: for every token type and length the solver searches a string of the reference language (Syntax.cdsn expression definitions re-stated as combinators over symbolic bytes) that the real scanner does not scan as exactly that token. Sentence level: the real ParseSource on templates of the grammar rules (all seven contexts, inline/multi-line/empty, nesting) with symbolic digits and letters must return the intended collection; boundary literals evaluate with Go semantics, unrepresentable ones are rejected; result independent of the scanner/parser interleaving up to a schedule bound.", "symbolic execution of go/ssa (regex VM, goroutine scheduler) + SMT (z3); sentence templates enumerated", "3/C11", "Sentences are templates (the solver decides the symbolic characters only); derivations beyond the templates and tokens longer than the bound are not covered.")
 claimed["C10"] = ("other", "Bounded symbolic execution of FormatValue -> ParseSource -> compare / re-format on the real code with symbolic leaves (16-bit integers via a FormatInt contract stub and the real ParseInt, printable runes and characters through the real Quote/Unquote), listed boundary literals of every intrinsic type (floats concrete: strconv's digit generation is outside SMT reach), the seven kinds at sizes 0..3 nested one level, purity after successful and failed calls, termination and elision on self-containing and over-deep values.", "symbolic execution of go/ssa (reflect model, regex VM, goroutines) + SMT (z3); shapes enumerated as templates", "3/C10", "Partially applicable by design: arbitrary recursive shapes, sizes to 40 and float digit generation are outside the claim (DESIGN.md section 5).")
 claimed["C19"] = ("other", "Non-interference by symbolic execution with an access log: for all pairs of operation families on disjoint instances (primitive and composite elements) the heap locations touched by the real code are recorded with locksets; a location touched by both, written by one, with no common lock is a violation (replayed natively in two goroutines under -race). Class accessors are explored under all interleavings at synchronisation operations for same / different fresh type parameters.", "symbolic execution of go/ssa with access/lockset log + SMT (z3); schedule choice points for the registries", "3/C19", "May-happen-in-parallel over explored paths, not full schedule exploration; sequential consistency.")
+BMC_NOTE = ("Trusted: go/ssa construction and the executor that extracts the thread event trees from the real code, the "
+            "sequentially consistent semantics of mutex / buffered channel / len / close / WaitGroup in the BMC back end (about 150 lines), "
+            "the abstract-sequence summary of the value list behind the queue (its behaviour is property C01), the Lipton reduction "
+            "(lock-protected regions, constant loads), cvc5 / z3. Complete for every schedule of the listed programs (unrolling depth "
+            "established by a completeness-threshold query); nothing is claimed for larger programs or relaxed memory. Witnesses are "
+            "replayed natively under the race detector with randomised pauses (probabilistic reproduction).")
+claimed["C04"] = ("model_checking", "Bounded model checking with a symbolic schedule of the real queue code: per-thread event trees are extracted from the SSA by symbolic execution (trace mode), unrolled as a transition system with one schedule variable per step; safety (history assertions for linearizable FIFO, exactly-once, back-pressure, observers, no panic), deadlock and data-race queries over all schedules of small producer/consumer/closer/observer programs.", "SSA -> thread event trees (symbolic execution) -> BMC with symbolic schedule (cvc5/z3)", "4", BMC_NOTE)
+claimed["C05"] = ("model_checking", "Deadlock / lost wake-up query of the same BMC over all schedules of producer/consumer/closer programs (well-formed programs terminate with every value consumed), plus bounded symbolic execution of every queue constructor form for 0..64 initial values (a send on the constructor's own full queue is a reported deadlock).", "BMC with symbolic schedule (cvc5/z3) + symbolic execution of the constructors", "4", BMC_NOTE)
+claimed["C06"] = ("model_checking", "BMC with a symbolic schedule of Fork, Split and Join: helper closures extracted from the SSA of queue.go with feeder, readers and a wait-group waiter; asserts per-output order, round-robin partition, Split-Join identity, closure of every output, wait group back to zero, no deadlock / panic / race over all schedules of the listed small programs.", "SSA -> thread event trees (symbolic execution) -> BMC with symbolic schedule (cvc5/z3)", "4", BMC_NOTE)
 reasons = {}
 
 checks = []
 for p in props:
     if p in claimed:
         cat, text, tech, ref, *rest = claimed[p]
+        bmc = cat == "model_checking"
         checks.append({
             "property_id": p,
             "quick_cmd": f"./check {p} quick",
             "thorough_cmd": f"./check {p} thorough",
             "evidence_file": f"/verif/evidence/{p}.json",
             "replay_cmd_template": f"./check {p} replay {{path}}",
-            "engine": "gosym",
+            "engine": "syncbmc" if bmc else "gosym",
             "level_claimed": {"category": cat, "text": text, "design_ref": "DESIGN.md section " + ref},
-            "level_note": SE_NOTE + (" " + rest[0] if rest else ""),
+            "level_note": (rest[0] if bmc else SE_NOTE + (" " + rest[0] if rest else "")),
             "technique": tech,
         })
 na = [{"property_id": p, "reason": reasons.get(p, "check not built yet (work in progress; see DESIGN.md section 6 for the build order)")} for p in props if p not in claimed]
@@ -51,7 +61,8 @@ m = {
  "setup_cmd": "./check build",
  "hooks": {"guard": "verif", "enable": "harness files live in /verif/harness and are injected as virtual files /repo/v4/zzvf, /repo/v4/zzvh (build tag verif) through packages.Config.Overlay / go test -overlay; nothing is written into /repo",
            "baseline_off_cmd": "cd /repo/v4 && GOFLAGS=-mod=mod GOPROXY=off go test -vet=off -count=1 ./...", "source_commits": [], "add_only": True},
- "engines": [{"name": "gosym", "path": "/verif/engine", "serves_properties": sorted(claimed), "kind_free_text": "symbolic executor for go/ssa (decision-vector path exploration, z3 over stdin, reflect/strings/map/channel models, native replay of counterexamples)"}],
+ "engines": [{"name": "gosym", "path": "/verif/engine", "serves_properties": sorted(k for k in claimed if claimed[k][0] != "model_checking"), "kind_free_text": "symbolic executor for go/ssa (decision-vector path exploration, z3/cvc5 over stdin, reflect/strings/regexp/map/channel models, native replay of counterexamples)"},
+             {"name": "syncbmc", "path": "/verif/engine/sym/trace.go, /verif/engine/sym/bmc.go", "serves_properties": ["C04", "C05", "C06"], "kind_free_text": "bounded model checker with symbolic schedule over thread event trees extracted from the SSA by gosym in trace mode"}],
  "checks": checks,
  "notes": "exit 0 = all obligations unsat within bounds (KNOWN-FINDING lines for listed findings); exit 1 = reproduced counterexample (VIOLATION line); exit 2 = inconclusive (no VIOLATION line). Fix commits in /repo: see known_findings.json.",
  "not_applicable": na,
